@@ -162,6 +162,11 @@ SearchFns == {"findVertexPredecessors", "findAllVertexPredecessors", "findGeodes
 TwoVertexFns == {"findGeodesics", "findAllGeodesics", "findPathToVertexFromPredecessors",
                  "findMultiplePathsToVertexFromPredecessors", "getSubgraph", "getSubgraphWithRemap"}
 BadVals(n) == {n, n + 1, D!MAXU}
+\* the reconstruction helpers receive a predecessor table next to the graph; it need not have been
+\* computed on this graph (e.g. on the graph a subgraph was taken from): its length is the graph's
+\* size or larger.  "Out of range" is decided by getSize(), never by the table.
+ReconFns == {"findPathToVertexFromPredecessors", "findMultiplePathsToVertexFromPredecessors"}
+TabLens(fn, n) == IF fn \in ReconFns THEN {n, n + 2} ELSE {n}
 ArgPairs(n) == (VS(n) \cup BadVals(n)) \X (VS(n) \cup BadVals(n))
 \* the documented outcome: std::out_of_range iff an index that the function receives is
 \* not a vertex
@@ -189,13 +194,13 @@ Init ==
                                      x = [k |-> "dijkstra", dir |-> FALSE, g |-> UGraph(n, a)]
       \* C07: every search / subgraph entry point x argument position x bad value
       [] Mode = "rejectD"      -> \E n \in 0 .. MaxN : \E a \in AttSpace(CanonD(n)) :
-                                  \E fn \in SearchFns : \E p \in ArgPairs(n) :
+                                  \E fn \in SearchFns : \E p \in ArgPairs(n) : \E tab \in TabLens(fn, n) :
                                      x = [k |-> "reject", dir |-> TRUE, g |-> DGraph(n, a), fn |-> fn,
-                                          s |-> p[1], t |-> p[2]]
+                                          s |-> p[1], t |-> p[2], tab |-> tab]
       [] Mode = "rejectU"      -> \E n \in 0 .. MaxN : \E a \in AttSpace(CanonU(n)) :
-                                  \E fn \in SearchFns : \E p \in ArgPairs(n) :
+                                  \E fn \in SearchFns : \E p \in ArgPairs(n) : \E tab \in TabLens(fn, n) :
                                      x = [k |-> "reject", dir |-> FALSE, g |-> UGraph(n, a), fn |-> fn,
-                                          s |-> p[1], t |-> p[2]]
+                                          s |-> p[1], t |-> p[2], tab |-> tab]
       [] Mode = "rejectWD"     -> \E n \in 0 .. MaxN : \E a \in AttSpace(CanonD(n)) : \E s \in VS(n) \cup BadVals(n) :
                                      x = [k |-> "reject_dijkstra", dir |-> TRUE, g |-> DGraph(n, a), s |-> s]
       [] Mode = "rejectWU"     -> \E n \in 0 .. MaxN : \E a \in AttSpace(CanonU(n)) : \E s \in VS(n) \cup BadVals(n) :
@@ -228,7 +233,7 @@ Emit ==
         [] x.k = "reject" ->
               PrintT(ToJson([k |-> x.k, dir |-> x.dir, g |-> IF x.dir THEN D!Enc(x.g) ELSE U!Enc(x.g),
                              fn |-> x.fn, s |-> x.s, t |-> (IF x.fn \in TwoVertexFns THEN x.t ELSE x.s),
-                             out |-> Outcome(x.g.n, x.fn, x.s, x.t)]))
+                             tab |-> x.tab, out |-> Outcome(x.g.n, x.fn, x.s, x.t)]))
         [] x.k = "reject_dijkstra" ->
               PrintT(ToJson([k |-> x.k, dir |-> x.dir, g |-> IF x.dir THEN D!Enc(x.g) ELSE U!Enc(x.g),
                              s |-> x.s, out |-> Outcome(x.g.n, "dijkstra", x.s, x.s)]))
